@@ -99,7 +99,7 @@ func TestC19Driver(t *testing.T) {
 			}
 			s.Star = rapid.SampledFrom([]int{-1, -1, 0, 1, 2}).Draw(t, "star")
 			s.Bad = rapid.SampledFrom([]string{"", "", "", "", "table", "column", "not-select", "syntax"}).Draw(t, "bad")
-			s.Plan = rapid.SampledFrom([]string{"all", "all", "close", "cancel", "cancel-async", "corrupt", "truncate", "prepared", "prepared-alter", "nested", "prepared-wal"}).Draw(t, "plan")
+			s.Plan = rapid.SampledFrom([]string{"all", "all", "close", "cancel", "cancel-async", "corrupt", "truncate", "prepared", "prepared-alter", "nested", "prepared-wal", "busy-first"}).Draw(t, "plan")
 			s.K = rapid.IntRange(0, 12).Draw(t, "k")
 			s.Yields = rapid.IntRange(0, 50).Draw(t, "yields")
 			s.Corrupt = rapid.IntRange(0, 1000).Draw(t, "corrupt")
@@ -109,6 +109,10 @@ func TestC19Driver(t *testing.T) {
 		Run: run,
 	})
 }
+
+// starItem stands for the wildcard in the list of select items (a column may
+// be called "*" itself).
+const starItem = "\x00*"
 
 func producerGoroutines() int {
 	buf := make([]byte, 1<<20)
@@ -163,7 +167,7 @@ func run(r *vt.Run, t vt.TB, s spec) {
 	for i, p := range s.Pick {
 		if i == s.Star {
 			sel = append(sel, "*")
-			items = append(items, "*")
+			items = append(items, starItem)
 			expanded = append(expanded, allCols...)
 		}
 		c := pool[p%len(pool)]
@@ -173,7 +177,7 @@ func run(r *vt.Run, t vt.TB, s spec) {
 	}
 	if len(sel) == 0 || s.Star >= len(s.Pick) {
 		sel = append(sel, "*")
-		items = append(items, "*")
+		items = append(items, starItem)
 		expanded = append(expanded, allCols...)
 	}
 	// (always quoted: a table may be called rowid, which is a word of the driver's own grammar)
@@ -269,7 +273,7 @@ func run(r *vt.Run, t vt.TB, s spec) {
 				return nil, nil, nil, false
 			}
 			for _, it := range items {
-				if it == "*" {
+				if it == starItem {
 					exp = append(exp, cols...)
 				} else {
 					exp = append(exp, it)
@@ -300,6 +304,38 @@ func run(r *vt.Run, t vt.TB, s spec) {
 	if s.Plan == "prepared-wal" {
 		runPreparedWAL(r, t, s, db, path, query, want, wantErr, before)
 		return
+	}
+	if s.Plan == "busy-first" {
+		// the first query meets a SQLite writer that holds EXCLUSIVE: it is
+		// refused (through Query, Scan or rows.Err). The writer leaves; the
+		// query below then runs as if nothing had happened - and gives its
+		// lock back at the end, too.
+		if err := env.O.Open("wx", path); err != nil {
+			r.Harness(t, "open wx: %v", err)
+		}
+		if err := env.O.Exec("wx", "BEGIN EXCLUSIVE"); err != nil {
+			env.O.Close("wx")
+			r.Harness(t, "begin exclusive: %v", err)
+		}
+		n := 0
+		rows, err := db.Query(query)
+		if err == nil {
+			for rows.Next() {
+				n++
+			}
+			err = rows.Err()
+			rows.Close()
+		}
+		rerr := env.O.Exec("wx", "ROLLBACK")
+		env.O.Close("wx")
+		if rerr != nil {
+			r.Harness(t, "rollback: %v", rerr)
+		}
+		if s.Bad == "" && (err == nil || n > 0) {
+			r.Violation(t, s, "read-under-exclusive-writer", "%s while a SQLite connection holds EXCLUSIVE: %d rows, error %v", query, n, err)
+			return
+		}
+		r.Count("queries-refused-under-an-exclusive-writer", 1)
 	}
 	ctx, cancel := context.WithCancel(context.Background())
 	defer cancel()
